@@ -5,8 +5,12 @@ package tracing
 
 //@ type SpansIndex
 //@   nonnil spans
+//@   lock spansLk guards spans
+//@   invariant spansLk [spans-nonnil] {C20} forall k datatransfer.ChannelID :: has(self.spans, k) ==> self.spans[k] != nil
 
 //@ func (*tracing.SpansIndex).SpanForChannel {C20}
 //@   effectfree -- abstraction for callers: tracing has no effect on channels; the function itself is checked under C20
+//@   modifies si.spans
 //@ func (*tracing.SpansIndex).EndChannelSpan {C09,C20}
-//@   opaque -- boundary for callers: the call is logged, nothing is assumed about its result
+//@   modifies si.spans
+//@   guarantee [ends-only-this] forall k datatransfer.ChannelID :: (has(self.spans, k) <==> old(has(self.spans, k)) && k != chid)
